@@ -148,6 +148,17 @@ def specOf : String → String → Option Range
   | "APDCharacteristics", "full_well_capacity" => some ⟨0, false, some 10000000⟩
   | "APDCharacteristics", "adc_bit_resolution" => some ⟨4, false, some 64⟩
   | "APDCharacteristics", "avalanche_gain" => some ⟨1, false, some 1000⟩
+  -- mode-level settings (calibration): "'Pygmo seed' must be between 0 and 100000", "'num_islands' must superior or
+  -- equal to 1", "'num_best_decisions' must be 'None' or a positive integer", "'generations' must be between 1 and
+  -- 100000", "'variant' must be between 1 and 18", "'cr' / 'm' must be between 0.0 and 1.0"
+  | "Calibration", "pygmo_seed" => some ⟨0, false, some 100000⟩
+  | "Calibration", "num_islands" => some ⟨1, false, none⟩
+  | "Calibration", "num_best_decisions" => some ⟨0, false, none⟩
+  | "Algorithm", "generations" => some ⟨1, false, some 100000⟩
+  | "Algorithm", "population_size" => some ⟨1, false, some 100000⟩
+  | "Algorithm", "variant" => some ⟨1, false, some 18⟩
+  | "Algorithm", "cr" => some ⟨0, false, some 1⟩
+  | "Algorithm", "m" => some ⟨0, false, some 1⟩
   | _, _ => none
 
 /-- fields of the statement's table, as (class, field) -/
@@ -159,7 +170,10 @@ def specFields : List (String × String) :=
    ("Characteristics", "adc_bit_resolution"),
    ("Environment", "temperature"), ("Environment", "wavelength"),
    ("APDCharacteristics", "quantum_efficiency"), ("APDCharacteristics", "full_well_capacity"),
-   ("APDCharacteristics", "adc_bit_resolution"), ("APDCharacteristics", "avalanche_gain")]
+   ("APDCharacteristics", "adc_bit_resolution"), ("APDCharacteristics", "avalanche_gain"),
+   ("Calibration", "pygmo_seed"), ("Calibration", "num_islands"), ("Calibration", "num_best_decisions"),
+   ("Algorithm", "generations"), ("Algorithm", "population_size"), ("Algorithm", "variant"),
+   ("Algorithm", "cr"), ("Algorithm", "m")]
 
 /-- The array sizes are integers in every use; the statement says nothing about a `nan` row count
 (`nan <= 0` is false, so the code lets it through on both paths).  For these fields `nan` is outside the
@@ -167,6 +181,8 @@ quantifier. -/
 def nanSilent : String → String → Bool
   | "Geometry", "row" => true
   | "Geometry", "col" => true
+  | "Calibration", "num_islands" => true
+  | "Calibration", "num_best_decisions" => true
   | _, _ => false
 
 /-! ## finite decision of "two conditions agree on every number" -/
@@ -218,6 +234,15 @@ def testPoints (ks : List Rat) (withNan : Bool) : List Num :=
 /-- finite test: do `c1` and `c2` raise on the same test points? -/
 def condEquivCheck (c1 c2 : Cond) (withNan : Bool) : Bool :=
   (testPoints (condConsts c1 ++ condConsts c2) withNan).all (fun y => raises c1 y == raises c2 y)
+
+/-- Fields whose guard is `x not in range(a, b)` / `isinstance(x, int) and …` (list regenerated from the source):
+the translated condition is the code's behaviour on integers; for them the theorems speak about integers. -/
+def isIntegral : Num → Bool
+  | .fin q => q.den == 1
+  | _ => false
+
+def intDomain (e : Entry) (x : Num) : Prop :=
+  (e.cls, e.field) ∈ PyxelModel.Generated.C12.intOnlyFields → isIntegral x = true
 
 /-- the three table-wide checks (run by the kernel on the regenerated table in `Props/C12.lean`) -/
 def withNanFor (e : Entry) : Bool := !nanSilent e.cls e.field
